@@ -572,7 +572,7 @@ def run(ctx):
         ctx.mc("MC_Brandes.tla", "MC_Brandes_dir_thorough.cfg")
         ctx.mc("MC_Brandes.tla", "MC_Brandes_und_thorough.cfg")
     jobs = build_jobs(ctx)
-    recs = pool.run_jobs(__name__, jobs, reuse=True, abort=True)
+    recs = pool.run_jobs(__name__, jobs, reuse=True, abort=True, strict_fp=True)
     verdicts = ctx.validate(*TRACE, recs, chunk=8000)
     # scale regime: few, large inputs; their own time limit and validation batch
     sjobs = build_scale_jobs(ctx)
